@@ -5,6 +5,9 @@ import (
 	"errors"
 	"fmt"
 	"io"
+	"net"
+	"os"
+	"syscall"
 	"net/http"
 	"net/url"
 	"sort"
@@ -104,6 +107,7 @@ type World struct {
 	cur      [maxTasks]*reqState // request being served by each task
 	solo     *reqState           // request being served outside the scheduler
 	identify *string
+	mwBase   []rux.HandlerFunc
 	inner    *rux.Router // a second router mounted below the main one ("mount" action)
 
 	copies     [16]*rux.Context
@@ -216,7 +220,6 @@ func BuildWorld(sc *Scenario, bo BuildOpt) (w *World) {
 			w.regPanic = fmt.Sprint(r)
 		}
 	}()
-	actionCounter = 0
 	w.register(sc.Program, nil)
 	if sc.Inner {
 		// the mounted router: two routes served by harness handlers of this world
@@ -228,6 +231,23 @@ func BuildWorld(sc *Scenario, bo BuildOpt) (w *World) {
 }
 
 func (w *World) hs(ids []string) []rux.HandlerFunc {
+	if len(ids) > 0 && len(ids) == len(w.sc.SharedMW) {
+		same := true
+		for i := range ids {
+			same = same && ids[i] == w.sc.SharedMW[i]
+		}
+		if same {
+			// the application's own slice, built once with spare capacity and never modified by it afterwards:
+			// every registration that names exactly this list receives the same slice value
+			if w.mwBase == nil {
+				w.mwBase = make([]rux.HandlerFunc, 0, len(ids)+8)
+				for _, id := range ids {
+					w.mwBase = append(w.mwBase, w.h(id))
+				}
+			}
+			return w.mwBase
+		}
+	}
 	out := make([]rux.HandlerFunc, len(ids))
 	for i, id := range ids {
 		out[i] = w.h(id)
@@ -332,9 +352,54 @@ func (w *World) h(id string) rux.HandlerFunc {
 	if f, ok := w.hfn[id]; ok {
 		return f
 	}
-	f := func(c *rux.Context) { w.play(id, c) }
+	f := rux.HandlerFunc(func(c *rux.Context) { w.play(id, c) })
+	if id[0] == 'w' {
+		// a plain net/http handler mounted with rux.WrapH: it sees only (ResponseWriter, *Request)
+		f = rux.WrapH(http.HandlerFunc(func(rw http.ResponseWriter, r *http.Request) { w.playHTTP(id, rw) }))
+	}
 	w.hfn[id] = f
 	return f
+}
+
+// playHTTP is the body of a harness handler mounted through rux.WrapH.
+func (w *World) playHTTP(id string, rw http.ResponseWriter) {
+	if p := w.getIdentify(); p != nil {
+		*p = id
+		return
+	}
+	rs := w.curState()
+	if rs == nil {
+		panic("ruxsim: wrapped handler " + id + " called outside a simulated request")
+	}
+	rec := rs.rec
+	rec.Trace = append(rec.Trace, TItem{K: "enter", H: id})
+	taskYield(siteHEnter)
+	for _, a := range w.script(rs, id) {
+		taskYield(siteHAct)
+		switch a.Op {
+		case "hwrite":
+			rec.Trace = append(rec.Trace, TItem{K: "do", H: id, V: "write:" + a.S})
+			n, err := rw.Write([]byte(a.S))
+			rec.Trace = append(rec.Trace, TItem{K: "w", H: id, V: fmt.Sprintf("%d,%v,len=%d", n, err, rs.ctxLen())})
+		case "hstatus":
+			rec.Trace = append(rec.Trace, TItem{K: "do", H: id, V: "status:" + strconv.Itoa(a.N)})
+			rw.WriteHeader(a.N)
+		case "herror":
+			rec.Trace = append(rec.Trace, TItem{K: "do", H: id, V: "httperr:" + strconv.Itoa(a.N) + ":" + a.S})
+			http.Error(rw, a.S, a.N)
+		case "hheader":
+			rw.Header().Set(a.S, a.V)
+		}
+	}
+	taskYield(siteHLeave)
+	rec.Trace = append(rec.Trace, TItem{K: "leave", H: id})
+}
+
+func (rs *reqState) ctxLen() int {
+	if rs.ctx != nil {
+		return rs.ctx.Length()
+	}
+	return -2
 }
 
 // Identify returns the id of a harness handler function.
@@ -373,6 +438,8 @@ func defaultScript(id string) []Action {
 		return []Action{{Op: "obsrec"}, {Op: "status", N: 500}}
 	case 'e': // error hook
 		return []Action{{Op: "obs"}}
+	case 'w': // net/http handler mounted with WrapH
+		return []Action{{Op: "hheader", S: "X-W", V: id}}
 	}
 	return []Action{{Op: "obs"}, {Op: "next"}, {Op: "obs"}}
 }
@@ -603,6 +670,15 @@ func (w *World) act(rs *reqState, id string, c *rux.Context, a Action) {
 		c.Req = c.Req.WithContext(context.WithValue(c.Req.Context(), swapKey{}, id))
 	case "yield":
 		taskYield(-1)
+	case "buildurl": // build a link from a named route and decorate it, as a handler rendering a page does
+		if rt := c.Router().GetRoute(a.S); rt != nil {
+			u := c.Router().BuildURL(a.S)
+			add("url", u.String())
+			u.RawQuery = "next=" + url.QueryEscape(rec.Path)
+		}
+	case "binary": // Context.Binary -> http.ServeContent
+		add("do", "binary:"+strconv.Itoa(a.N)+":"+a.S)
+		c.Binary(a.N, strings.NewReader(a.S), "f.bin", true)
 	case "cancelreq": // the client goes away (or a deadline fires) while the chain is running
 		if rs.cancel != nil {
 			rs.cancel()
@@ -697,7 +773,7 @@ func (w *World) observe(rs *reqState, c *rux.Context) string {
 	fmt.Fprintf(&b, " resp=%T", c.Resp)
 	if c.Req != nil {
 		// what the request-derived getters say (a value kept from another request would show here)
-		fmt.Fprintf(&b, " acc=%v q=%s ct=%s ip=%s", c.AcceptedTypes(), c.Query("q"), c.ContentType(), c.ClientIP())
+		fmt.Fprintf(&b, " acc=%v q=%s ct=%s ip=%s ck=%s post=%s", c.AcceptedTypes(), c.Query("q"), c.ContentType(), c.ClientIP(), c.Cookie("sid"), c.Post("user"))
 	}
 	return b.String()
 }
@@ -734,6 +810,11 @@ func newHTTPRequest(method, path string, rs *reqState) *http.Request {
 		Host:       "sim",
 		RequestURI: path,
 		Body:       http.NoBody,
+	}
+	req.Header["Cookie"] = []string{"theme=dark", "sid=s" + tok} // two Cookie lines: the first is the same for every request
+	if method == "POST" || method == "PUT" || method == "PATCH" {
+		req.Header.Set("Content-Type", "application/x-www-form-urlencoded")
+		req.Body = io.NopCloser(strings.NewReader("user=u" + tok))
 	}
 	ctx, cancel := context.WithCancel(context.WithValue(context.Background(), ctxKey{}, rs))
 	rs.cancel = cancel
@@ -808,6 +889,10 @@ func doPanic(kind, id string) {
 		m[id] = 1 // runtime error: assignment to entry in nil map
 	case "aborthandler":
 		panic(http.ErrAbortHandler)
+	case "brokenpipe": // what a write on a dead connection returns, wrapped the way net does
+		panic(&net.OpError{Op: "write", Net: "tcp", Err: os.NewSyscallError("write", syscall.EPIPE)})
+	case "connreset":
+		panic(fmt.Errorf("send: %w", &net.OpError{Op: "write", Net: "tcp", Err: os.NewSyscallError("write", syscall.ECONNRESET)}))
 	default:
 		panic("boom:" + id)
 	}
@@ -832,7 +917,6 @@ func panicString(r any) string {
 // ---- map-order seams ----
 
 var orderSeed uint64
-var actionCounter int
 
 func hookOrder(site string, items []string) []string {
 	if len(items) < 2 {
@@ -853,35 +937,11 @@ func hookOrder(site string, items []string) []string {
 	return out
 }
 
-func hookActions(m map[string][]string) []map[string][]string {
-	keys := make([]string, 0, len(m))
-	for k := range m {
-		keys = append(keys, k)
-	}
-	sort.Strings(keys)
-	if orderSeed != 0 {
-		rng := NewRng(orderSeed, 0xac7, uint64(actionCounter))
-		p := rng.Perm(len(keys))
-		k2 := make([]string, len(keys))
-		for i, j := range p {
-			k2[i] = keys[j]
-		}
-		keys = k2
-	}
-	actionCounter++
-	out := make([]map[string][]string, len(keys))
-	for i, k := range keys {
-		out[i] = map[string][]string{k: m[k]}
-	}
-	return out
-}
-
 func installHooks() {
 	rux.VerifHooks.Yield = ruxYield
 	rux.VerifHooks.PoolGet = hookPoolGet
 	rux.VerifHooks.PoolPut = hookPoolPut
 	rux.VerifHooks.Order = hookOrder
-	rux.VerifHooks.Actions = hookActions
 }
 
 // EffPath is the path the router matches for a request with this URL path:
